@@ -118,7 +118,18 @@ Proof.
   rewrite E. destruct (existsb (holds rho) args); reflexivity.
 Qed.
 
-(* fe_merge without ancestor: exactly the models of some condition_i together with the i-th constraint set *)
+(* SatCacheMixin._add: when And(con, added) builds to the constant False, {con, added} is an unsatisfiable pair --
+   the core that the syntactic shortcut caches *)
+Theorem shortcut_core_unsat con added r :
+  bool_ok con -> bool_ok added -> mkf OBAnd [] [con; added] = Ok r -> is_false r = true ->
+  forall rho, models rho [con; added] = false.
+Proof.
+  intros Hc Ha H Hf rho.
+  destruct (mk_and_sem [con; added] r ltac:(constructor; [auto|constructor; [auto|constructor]]) ltac:(discriminate) H) as (_ & Hr).
+  unfold models. rewrite <- Hr. apply holds_false. exact Hf.
+Qed.
+
+(* merge without ancestor: exactly the models of some condition_i together with the i-th constraint set *)
 Theorem merge_sem s others conds r :
   Forall bool_ok conds -> Forall wfcs (s :: others) -> conds <> [] ->
   fe_merge mkf s others conds = Ok r ->
